@@ -1,6 +1,6 @@
 (* Props/C02.v — C02: end-of-stream follows all data; half-close; tear-down. *)
 From Coq Require Import List NArith Ascii Bool Lia.
-From SV Require Import Lib.Bytes Model.Wire Model.Chan Model.Stream
+From SV Require Import Model.StreamQuiet Proofs.Stream_quiet Lib.Bytes Model.Wire Model.Chan Model.Stream
   Proofs.Stream_basic Proofs.Stream_wrap Proofs.Stream_cb Proofs.Stream_reg Proofs.Stream_view
   Proofs.Stream_flow Proofs.Stream_props Gen.Consts.
 Import ListNotations.
@@ -87,10 +87,61 @@ Theorem c02_half_close_before_connect_refuted :
 Proof. vm_compute. auto. Qed.
 Print Assumptions c02_half_close_before_connect_refuted.
 
-(* The last sentence of C02 (no state reachable under a fair schedule is stuck with
-   undelivered data or a half-open flow while nothing is pending) is a liveness /
-   quiescence statement; it is not proved.  Kept as the full statement: *)
-Definition c02_no_stuck_state_full : Prop :=
-  forall maxc lbs evs w, run (world0 maxc lbs) evs = Ok w -> w_stale w = false ->
-  (forall sd fid, exists ws, forall p, e_prox (get_end w sd) fid = Some p -> live p = true ->
-      snd (proxy_pre_select sd fid p (e_mux (get_end w sd))) = ws /\ (p_ok p = true -> ws <> [])).
+(* The last sentence of C02: "no state reachable under a fair schedule is stuck with
+   undelivered data or a half-open flow while nothing is pending".  Stated over the
+   quiescent states of the model (StreamQuiet.quiescentb = nothing is pending: links and
+   queues empty, no wait set holds a descriptor an eager environment reports ready): *)
+(* (a) no undelivered data: in a quiescent state, for every flow and direction whose receiving
+   socket has not been shut down and is connected, the peer's buffer, the frames on the way and
+   the reading end's buffer are empty and everything read has been handed on *)
+Theorem c02_no_stuck_data :
+  forall maxc lbs evs w rs f,
+  run (world0 maxc lbs) evs = Ok w -> w_stale w = false -> quiescentb w = true ->
+  let v := view_of w rs f in
+  vfz v = false -> s_conn (pS (wprox w rs f)) = false ->
+  vY v = [] /\ vP v = [] /\ flat (vX v) = [] /\ vD v = vA v.
+Proof. exact q_c02_no_stuck_data. Qed.
+Print Assumptions c02_no_stuck_data.
+
+(* (b) the handlers a quiescent state can contain: waiting for the socket to become readable,
+   waiting for the peer, still connecting — or (4th alternative, the shape of finding F20) waiting
+   for NOTHING although the termination test of Proxy.callback would succeed *)
+Theorem c02_quiet_handler_shape :
+  forall maxc lbs evs w sd fid p,
+  run (world0 maxc lbs) evs = Ok w -> quiescentb w = true ->
+  e_prox (get_end w sd) fid = Some p -> active p = true ->
+  let x := e_mux (get_end w sd) in
+  (In WSockR (pre_ws sd fid p x) /\ s_sr (p_s (pre_p sd fid p x)) = false) \/
+  (In WMuxR (pre_ws sd fid p x) /\ m_sr (p_m (pre_p sd fid p x)) = false) \/
+  s_conn (p_s p) = true \/
+  (pre_ws sd fid p x = [] /\ finished_test (pre_p sd fid p x) = true).
+Proof. exact q_c02_quiet_handler_shape. Qed.
+Print Assumptions c02_quiet_handler_shape.
+
+(* (c) no half-open flow waits for a peer that is gone or for a peer that waits for it: every active
+   handler waits for the outside world (or has the F20 shape), or it has sent its EOF and its peer
+   exists, is active, and itself waits for the outside world.  PARTIAL: the F20 shape is inside
+   waits_outside; that the drain reaches a quiescent state is Stream_quiet.eager_drain_full (unproved) *)
+Theorem c02_no_stuck_state_partial :
+  forall maxc lbs evs w sd f p,
+  run (world0 maxc lbs) evs = Ok w -> w_stale w = false -> quiescentb w = true ->
+  e_prox (get_end w sd) f = Some p -> active p = true ->
+  waits_outside sd f p (e_mux (get_end w sd)) \/
+  (m_sw (p_m p) = true /\ m_sr (p_m p) = false /\
+   exists q, e_prox (get_end w (other sd)) f = Some q /\ active q = true /\
+             m_sr (p_m q) = true /\ m_sw (p_m q) = false /\
+             waits_outside (other sd) f q (e_mux (get_end w (other sd)))).
+Proof. exact q_c02_no_stuck_state_partial. Qed.
+Print Assumptions c02_no_stuck_state_partial.
+
+(* (d) the unrestricted sentence — every active handler of a quiescent state waits for something —
+   is FALSE of the code as found: known finding F20 (witness evaluated by vm_compute: the
+   application resets right after connecting; replayed on the real code by harness/props/c02.py) *)
+Theorem c02_no_stuck_state_refuted :
+  ~ (forall maxc lbs evs w sd fid p,
+       run (world0 maxc lbs) evs = Ok w -> w_stale w = false -> quiescentb w = true ->
+       e_prox (get_end w sd) fid = Some p -> active p = true ->
+       pre_ws sd fid p (e_mux (get_end w sd)) <> []).
+Proof. exact q_c02_no_stuck_state_refuted. Qed.
+Print Assumptions c02_no_stuck_state_refuted.
+
